@@ -200,10 +200,19 @@ static void replace_case(const vrt::Box<ST::string> &st, const S &s, const S &fr
     if (to_c) {
         Outcome o = call_str("replace", what + " form=str,cstr", [&] { return st->replace(*sfrom, ct.data(), cs); }, got);
         judge("str,cstr", o, result_invalid || !ref::utf8_ok(to), got);
+        o = call_str("replace", what + " form=str,char8_t", [&] { return st->replace(*sfrom, reinterpret_cast<const char8_t *>(ct.data()), cs); }, got);
+        judge("str,char8_t", o, result_invalid || !ref::utf8_ok(to), got);
     }
     if (from_c) {
         Outcome o = call_str("replace", what + " form=cstr,str", [&] { return st->replace(cf.data(), *sto, cs); }, got);
         judge("cstr,str", o, result_invalid || !ref::utf8_ok(from), got);
+        o = call_str("replace", what + " form=char8_t,str", [&] { return st->replace(reinterpret_cast<const char8_t *>(cf.data()), *sto, cs); }, got);
+        judge("char8_t,str", o, result_invalid || !ref::utf8_ok(from), got);
+    }
+    {
+        // deprecated overload that takes (and ignores) a validation mode
+        Outcome o = call_str("replace", what + " form=str,str,validation [deprecated]", [&] { return st->replace(*sfrom, *sto, cs, ST::assume_valid); }, got);
+        judge("str,str,validation", o, result_invalid, got);
     }
     vrt::count("replace.cases");
     if (k) vrt::count("replace.with_matches");
